@@ -112,6 +112,36 @@ def macrolet_scope_programs():
     return out
 
 
+def reentrant_macro_programs():
+    """every macro call binds its parameters afresh: a macro whose body expands a nested call of ITSELF (macroexpand)
+    and then reads its own parameters again, and a closure over a macro parameter that the expansion carries along and
+    that is called after the same macro has been used again"""
+    HEAD = lambda n: [S("car"), Q([S(n)])]
+    my_and = [S("defmacro"), S("my-and"), [S("&rest"), S("xs")],
+              [S("if"), [S("nil?"), S("xs")], S("true"),
+               [S("if"), [S("nil?"), [S("cdr"), S("xs")]], QQ([S("progn"), UQ([S("car"), S("xs")])]),
+                [S("let"), [[S("rest-exp"), [S("macroexpand"), [S("cons"), HEAD("my-and"), [S("cdr"), S("xs")]]]]],
+                 QQ([S("if"), UQ([S("car"), S("xs")]), UQ(S("rest-exp")), S("false")])]]]]
+    defadder = [S("defmacro"), S("defadder"), [S("name"), S("n")],
+                [S("let"), [[S("f"), [S("lambda"), [S("x")], [S("+"), S("x"), S("n")]]]],
+                 QQ([S("defun"), UQ(S("name")), [S("x")], [S("funcall"), UQ(S("f")), S("x")]])]]
+    nest = [S("defmacro"), S("nest"), [S("tag"), S("k")],
+            [S("if"), [S("<="), S("k"), 0], QQ([S("list"), [S("quote"), UQ(S("tag"))]]),
+             [S("let"), [[S("inner"), [S("macroexpand-1"), [S("list"), HEAD("nest"), [S("car"), Q([S("in")])], [S("-"), S("k"), 1]]]]],
+              QQ([S("list"), [S("quote"), UQ(S("tag"))], UQ(S("k")), UQ(S("inner"))])]]]
+    out = [
+        [my_and, [S("probe"), Q(S("mx")), [S("macroexpand"), Q([S("my-and"), S("a"), S("b"), S("c")])]],
+         [S("set"), Q(S("a")), 1], [S("set"), Q(S("b")), S("false")], [S("set"), Q(S("c")), 3],
+         [S("probe"), Q(S("r")), [S("my-and"), S("a"), S("b"), S("c")]], [S("probe"), Q(S("r2")), [S("my-and"), S("a"), S("c")]], [S("probe"), Q(S("r1")), [S("my-and"), S("c")]], [S("probe"), Q(S("r0")), [S("my-and")]]],
+        [defadder, [S("defadder"), S("add1"), 1], [S("defadder"), S("add2"), 2], [S("probe"), Q(S("r")), [S("add1"), 10], [S("add2"), 10], [S("add1"), 20]]],
+        [nest, [S("probe"), Q(S("mx1")), [S("macroexpand-1"), Q([S("nest"), S("out"), 2])]], [S("probe"), Q(S("r")), [S("nest"), S("out"), 2]], [S("probe"), Q(S("r0")), [S("nest"), S("z"), 0]]],
+        # the same closure-carrying expansion from a local macro
+        [[S("macrolet"), [[S("mk"), [S("n")], [S("let"), [[S("f"), [S("lambda"), [S("x")], [S("+"), S("x"), S("n")]]]], QQ([S("lambda"), [S("x")], [S("funcall"), UQ(S("f")), S("x")]])]]],
+          [S("let"), [[S("p1"), [S("mk"), 1]], [S("p2"), [S("mk"), 2]]], [S("probe"), Q(S("r")), [S("funcall"), S("p1"), 10], [S("funcall"), S("p2"), 10], [S("funcall"), S("p1"), 20]]]]],
+    ]
+    return out
+
+
 # ---- quasiquote templates
 def templates(depth):
     leaves = [1, S("sym"), Q(S("qs")), UQ(S("x")), Q(UQ(S("x"))), []]
@@ -194,6 +224,7 @@ def _run(V, work, tier):
     progs_.append(("macro", list(MACROS) + [[S("m-def"), S("made"), 11], [S("probe"), [S("made")]], [S("m-defmac"), S("made-mac")], [S("probe"), [S("made-mac"), 5]],
                                             [S("probe"), [S("macroexpand-1"), Q([S("made-mac"), 5])]]], None))
     progs_ += [("scope", f, None) for f in macrolet_scope_programs()]
+    progs_ += [("reentrant", f, None) for f in reentrant_macro_programs()]
     ts = templates(2)
     if not thorough:
         multi = [t for t in ts if "('q', ('q'," in repr(t)]       # templates with two or more quote marks: always all of them
